@@ -931,7 +931,8 @@ def gen_c08_blanks(tier):
 
 def gen_c16_refs(tier):
     defs = ["[a]: /u\n", "[a]: /v 't'\n", "[A]: /w\n", "[b]: <x y> (t)\n", "[a]: /u\n[a]: /z\n", "[ a  b ]: /ab\n", "[ß]: /ss\n", "[c]:\n/m\n'multi\nline'\n",
-            "[d]: /d \"hard\\\nbreak\"\n", "> [q]: /q\n", "- [l]: /l\n", "[e]: /e\nnot a def\n", "", "[ẞ]: /SS\n", "[f]: <a\\\nb>\n", "[g]: a\\\nb\n"]
+            "[d]: /d \"hard\\\nbreak\"\n", "> [q]: /q\n", "- [l]: /l\n", "[e]: /e\nnot a def\n", "", "[ẞ]: /SS\n", "[f]: <a\\\nb>\n", "[g]: a\\\nb\n",
+            "[h]: /h \"one&#10;two\"\n[i]: /i\n", "[j]: /j 'x&NewLine;y'\n[k]: /k\n", "[m]: /m (a&#xA;b)\n", "[n]: /n \"a\\\"b\nc\"\n[o]: /o\n"]
     uses = ["[a]\n", "[A] [b]\n", "![a]\n", "[x][a]\n", "[a]: /other\n\n[a]\n", "[a b]\n", "[SS] [ss]\n", "[c] [d]\n", "[q] [l]\n", "[e]\n", "plain\n", "[a]: /u\n\n[a]\n"]
     for r in defs:
         for d in uses:
